@@ -117,15 +117,23 @@ def write_project(root, version):
             fh.write(ROUTER_PY)
         with open(os.path.join(root, 'routes.json'), 'w') as fh:
             json.dump(version['routes'], fh)
+    # 'app_modules': {label: module} for apps whose AppConfig.label differs from
+    # the name of their module (default: the module is named like the label)
+    modules = version.get('app_modules') or {}
+    installed = [a if modules.get(a, a) == a else '%s.apps.Cfg' % modules[a] for a in apps]
     with open(os.path.join(root, 'settings.py'), 'w') as fh:
         fh.write(SETTINGS % {
-            'apps': ['django.contrib.contenttypes', 'django_evolution'] + list(apps),
+            'apps': ['django.contrib.contenttypes', 'django_evolution'] + installed,
             'other_db': other, 'extra': extra})
     spec = version['spec']
     for app in apps:
-        adir = os.path.join(root, app)
+        adir = os.path.join(root, modules.get(app, app))
         os.makedirs(adir, exist_ok=True)
         open(os.path.join(adir, '__init__.py'), 'w').close()
+        if modules.get(app, app) != app:
+            with open(os.path.join(adir, 'apps.py'), 'w') as fh:
+                fh.write('from django.apps import AppConfig\n\n\nclass Cfg(AppConfig):\n'
+                         '    name = %r\n    label = %r\n' % (modules[app], app))
         with open(os.path.join(adir, 'spec.json'), 'w') as fh:
             json.dump({'apps': {app: spec['apps'].get(app, {'models': {}})}}, fh)
         with open(os.path.join(adir, 'models.py'), 'w') as fh:
